@@ -104,13 +104,14 @@ func genOPT(r *Rng) *GenRR {
 func codecLine(pl *specPlan, g *GenRR) (string, bool) {
 	covered := map[string]bool{"unpackUint8": true, "unpackUint16": true, "unpackUint32": true, "unpackUint48": true, "unpackUint64": true,
 		"unpackDataA": true, "unpackDataAAAA": true, "unpackString": true, "UnpackDomainName": true, "unpackStringHex": true,
-		"unpackStringBase64": true, "unpackStringBase32": true, "unpackStringAny": true, "unpackStringOctet": true, "unpackStringTxt": true}
+		"unpackStringBase64": true, "unpackStringBase32": true, "unpackStringAny": true, "unpackStringOctet": true, "unpackStringTxt": true,
+		"unpackDataNsec": true}
 	var out []string
 	for _, s := range pl.Steps {
 		if s.Codec == "earlyexit" {
 			continue
 		}
-		if !covered[s.Codec] || s.Cond != "" {
+		if !covered[s.Codec] || (s.Cond != "" && s.Cond != "rr.Salt!=\"-\"") {
 			return "", false
 		}
 		v := g.Fields[s.Field]
@@ -140,6 +141,17 @@ func codecLine(pl *specPlan, g *GenRR) (string, bool) {
 				}
 			}
 			out = append(out, "s:"+strings.Join(parts, ","))
+		case "nsec":
+			ts := v.([]uint16)
+			if len(ts) == 0 {
+				out = append(out, "y:-")
+				break
+			}
+			var parts []string
+			for _, x := range ts {
+				parts = append(parts, fmt.Sprint(x))
+			}
+			out = append(out, "y:"+strings.Join(parts, ","))
 		default: // str, octet, hex, b64, b32, any, ip
 			out = append(out, "b:"+hexOrDash(v.([]byte)))
 		}
